@@ -204,11 +204,90 @@ func isReqField(v ssa.Value, field string) bool {
 	if !ok || u.Op != token.MUL {
 		return false
 	}
-	fa, ok := u.X.(*ssa.FieldAddr)
-	if !ok {
-		return false
+	switch a := u.X.(type) {
+	case *ssa.FieldAddr:
+		return fieldName(a) == field
+	case *ssa.Alloc: // `path := r.URL.Path` that a function literal captures lives in a cell: one store, of the field
+		if st := cellStores(a); len(st) == 1 {
+			return isReqField(st[0].Val, field)
+		}
+	case *ssa.FreeVar:
+		if al, ok := freeVarBinding(a).(*ssa.Alloc); ok {
+			if st := cellStores(al); len(st) == 1 {
+				return isReqField(st[0].Val, field)
+			}
+		}
 	}
-	return fieldName(fa) == field
+	return false
+}
+
+// prefixListTest: slices.ContainsFunc(<list of constant strings>, func(p string) bool { return strings.HasPrefix(<request path>, p) })
+// — "the path starts with one of these"; returns the constants.
+func prefixListTest(c *ssa.Call) ([]string, bool) {
+	g := c.Call.StaticCallee()
+	if g == nil || len(c.Call.Args) != 2 {
+		return nil, false
+	}
+	o := g
+	if g.Origin() != nil {
+		o = g.Origin()
+	}
+	if o.Pkg == nil || o.Pkg.Pkg.Path() != "slices" || o.Name() != "ContainsFunc" {
+		return nil, false
+	}
+	sl, ok := c.Call.Args[0].(*ssa.Slice)
+	if !ok {
+		return nil, false
+	}
+	al, ok := sl.X.(*ssa.Alloc)
+	if !ok || al.Referrers() == nil {
+		return nil, false
+	}
+	var consts []string
+	for _, ref := range *al.Referrers() {
+		ia, ok := ref.(*ssa.IndexAddr)
+		if !ok {
+			if ref != ssa.Instruction(sl) {
+				return nil, false
+			}
+			continue
+		}
+		for _, rr := range *ia.Referrers() {
+			st, ok := rr.(*ssa.Store)
+			if !ok {
+				return nil, false
+			}
+			k, ok := stringOf(st.Val)
+			if !ok {
+				return nil, false
+			}
+			consts = append(consts, k)
+		}
+	}
+	mc, ok := c.Call.Args[1].(*ssa.MakeClosure)
+	if !ok {
+		return nil, false
+	}
+	pred, ok := mc.Fn.(*ssa.Function)
+	if !ok || len(pred.Blocks) != 1 || len(pred.Params) != 1 {
+		return nil, false
+	}
+	ret, ok := pred.Blocks[0].Instrs[len(pred.Blocks[0].Instrs)-1].(*ssa.Return)
+	if !ok || len(ret.Results) != 1 {
+		return nil, false
+	}
+	hp, ok := ret.Results[0].(*ssa.Call)
+	if !ok || len(hp.Call.Args) != 2 {
+		return nil, false
+	}
+	if ho := calleeObj(&hp.Call); ho == nil || ho.Pkg() == nil || ho.Pkg().Path() != "strings" || ho.Name() != "HasPrefix" {
+		return nil, false
+	}
+	if hp.Call.Args[1] != ssa.Value(pred.Params[0]) || !isReqField(hp.Call.Args[0], "Path") {
+		return nil, false
+	}
+	sort.Strings(consts)
+	return consts, len(consts) > 0
 }
 
 func isLastSegment(v ssa.Value) bool {
@@ -261,6 +340,9 @@ func condAtom(v ssa.Value) (atom, bool, bool) { // atom, negated, ok
 			}
 		}
 	case *ssa.Call:
+		if list, ok := prefixListTest(x); ok {
+			return atom{"prefix-any", strings.Join(list, "\x1f")}, false, true
+		}
 		if o := calleeObj(&x.Call); o != nil && o.Pkg() != nil && o.Pkg().Path() == "strings" && len(x.Call.Args) == 2 {
 			if s, ok := stringOf(x.Call.Args[1]); ok && isReqField(x.Call.Args[0], "Path") {
 				switch o.Name() {
@@ -455,6 +537,17 @@ func evalAtom(a atom, method, pattern string) int {
 			}
 		}
 		return triMaybe
+	case "prefix-any":
+		res := triFalse
+		for _, one := range strings.Split(a.arg, "\x1f") {
+			switch evalAtom(atom{"prefix", one}, method, pattern) {
+			case triTrue:
+				return triTrue
+			case triMaybe:
+				res = triMaybe
+			}
+		}
+		return res
 	case "prefix":
 		if !hasWild {
 			return b2t(strings.HasPrefix(pattern, a.arg))
@@ -551,30 +644,7 @@ func ruleWEB3(w *World, r *Report) {
 		if rt.Method == "" {
 			methods = []string{"GET", "POST", "PUT", "DELETE"}
 		}
-		worst, worstWhy := "admin", ""
-		for _, m := range methods {
-			for _, p := range paths {
-				feasible := true
-				var chosen []string
-				for _, l := range p.lits {
-					v := evalAtom(l.a, m, rt.Pattern)
-					if (v == triTrue && !l.truth) || (v == triFalse && l.truth) {
-						feasible = false
-						break
-					}
-					if v == triMaybe && l.a.kind != "opaque" && l.truth {
-						chosen = append(chosen, l.a.kind+" "+l.a.arg)
-					}
-				}
-				if !feasible {
-					continue
-				}
-				if roleRank[p.role] < roleRank[worst] {
-					worst = p.role
-					worstWhy = strings.Join(chosen, ", ")
-				}
-			}
-		}
+		worst, worstWhy := weakestRole(paths, methods, rt.Pattern)
 		ok := roleRank[worst] >= roleRank[need]
 		why := ""
 		if worstWhy != "" {
@@ -583,6 +653,36 @@ func ruleWEB3(w *World, r *Report) {
 		r.Cond(ok, "WEB-3", "route:"+key, w.Pos(rt.Pos), fmt.Sprintf("effect %s, weakest role the policy can require: %s", need, worst),
 			fmt.Sprintf("route %s needs the %s role (%s) but the middleware's decision procedure can settle for %s%s: a %s token performs it", key, need, e.via, worst, why, worst))
 	}
+}
+
+// weakestRole: the lowest role the extracted decision procedure can settle for on a route, over the given methods and every
+// instantiation of the pattern's wildcards; and the wildcard choices that get there.
+func weakestRole(paths []policyPath, methods []string, pattern string) (string, string) {
+	worst, worstWhy := "admin", ""
+	for _, m := range methods {
+		for _, p := range paths {
+			feasible := true
+			var chosen []string
+			for _, l := range p.lits {
+				v := evalAtom(l.a, m, pattern)
+				if (v == triTrue && !l.truth) || (v == triFalse && l.truth) {
+					feasible = false
+					break
+				}
+				if v == triMaybe && l.a.kind != "opaque" && l.truth {
+					chosen = append(chosen, l.a.kind+" "+l.a.arg)
+				}
+			}
+			if !feasible {
+				continue
+			}
+			if roleRank[p.role] < roleRank[worst] {
+				worst = p.role
+				worstWhy = strings.Join(chosen, ", ")
+			}
+		}
+	}
+	return worst, worstWhy
 }
 
 // ruleSIBroles: HasAccess handles every role the middleware can require.
